@@ -93,6 +93,19 @@ def study(part, o, rows, kind, ftype, mf, obj, clause_prefix, cond, det):
             # point -h (convention of Paraxial._get_object_position): the paraxial ray of the requested point is its negative
             ys, us = [-a for a in ys], [-a for a in us]
     ys, us = np.array(ys), np.array(us)
+    # the limit the property names is the ray returned by the library: it has to be this reference ray
+    yl, ul = (o.paraxial.marginal_ray() if kind == 'marginal' else o.paraxial.chief_ray())
+    yl = np.array([float(np.ravel(v)[0]) for v in yl])[1:]
+    ul = np.array([float(np.ravel(v)[0]) for v in ul])[1:]
+    if kind == 'chief' and ftype == 'object_height':
+        yl, ul = -yl, -ul
+    part.transitions += 1
+    if yl.shape == ys.shape and np.all(np.isfinite(ys)):
+        sy, su = max(1.0, float(np.max(np.abs(ys)))), max(1e-3, float(np.max(np.abs(us))))
+        if np.max(np.abs(yl - ys)) > 1e-8 * sy or np.max(np.abs(ul[:-1] - us[:-1])) > 1e-8 * su:
+            k_ = int(np.argmax(np.abs(yl - ys)))
+            part.violation(PID, f'{clause_prefix}{kind}-limit-is-the-library-paraxial-ray', f'Paraxial.{kind}_ray', cond, dict(det, surface=k_ + 1),
+                           observed=dict(y=yl.tolist(), u=ul.tolist()), expected=dict(y=ys.tolist(), u=us.tolist()), tol=1e-8)
     ns = len(rows)
     Y = np.full((len(EPS), ns - 1), np.nan)
     U = np.full((len(EPS), ns - 1), np.nan)
